@@ -864,6 +864,20 @@ let cmd_dec (args : string list) : string =
     (match decode_update_v1 (fuel_for bs) bs with
      | Ok (u, _) -> (match encode_update_v2 u with Some out -> "ok " ^ hex_of_bytes out | None -> "panic encode")
      | Err e -> "err " ^ err_name e | Panic s -> "panic " ^ hex_of_n s | Fuel -> "fuel")
+  (* the same update in the two wire formats: block structure (kind, id, length, origins, parent, key) and every content except the
+     payload of embeds / format marks (JSON text in v1, Any in v2) must agree, and so must the delete sets *)
+  | ["same12"; h1; h2] ->
+    let b1 = bytes_of_hex h1 in
+    (match decode_update_v1 (fuel_for b1) b1, decode_update_v2 (bytes_of_hex h2) with
+     | Ok (u1, _), Ok (u2, _) ->
+       let shape (b : block) = (match b with
+         | BItem (i, o, ro, p, ps, (BEmbed _)) -> "I" ^ print_id i ^ "<" ^ print_oid o ^ ">" ^ print_oid ro ^ "^" ^ print_parent p ^ (match ps with Some k -> "/" ^ rawhex k | None -> "") ^ "=embed"
+         | BItem (i, o, ro, p, ps, (BFormat (k, _))) -> "I" ^ print_id i ^ "<" ^ print_oid o ^ ">" ^ print_oid ro ^ "^" ^ print_parent p ^ (match ps with Some k -> "/" ^ rawhex k | None -> "") ^ "=format:" ^ rawhex k
+         | _ -> print_block b) in
+       let norm (u : update) = String.concat ";" (List.map (fun (c, bs) -> hex_of_n c ^ "[" ^ String.concat " " (List.map shape (List.filter (fun b -> match b with BSkip _ -> false | _ -> true) bs)) ^ "]") (sort_clients (List.filter (fun (_, bs) -> List.exists (fun b -> match b with BSkip _ -> false | _ -> true) bs) u.u_blocks))) ^ "D{" ^ print_idset (sort_clients u.u_ds) ^ "}" in
+       let (a, b) = (norm u1, norm u2) in
+       if a = b then "ok same" else "differ v1=" ^ a ^ " v2=" ^ b
+     | _ -> "err undecodable")
   | ["reenc_update"; hx] ->
     let bs = bytes_of_hex hx in
     (match decode_update_v1 (fuel_for bs) bs with
